@@ -120,6 +120,14 @@ fn gen_contexts(p: &[u64; 8]) -> Gen {
     let mut rng = Rng::for_case(p[0], 2021, p[1]);
     let text = if p[1] == 0 {
         "%start X\n%%\nX: 'a' Y 'd' | 'a' Z 'c' | 'a' Q 'f' | 'b' Y 'e' | 'b' Z 'd' | 'b' Q 'g';\nY: 't';\nQ: 't';\nZ: 't';\n".to_string()
+    } else if p[1] == 1 {
+        // six equally good single-token repairs for `a c`: which one is reported first, and applied, must
+        // not depend on the width either
+        "%start S\n%%\nS: 'a' B 'c';\nB: 'p' | 'q' | 'r' | 's' | 't' | 'u';\n".to_string()
+    } else if p[1] == 2 {
+        // 300 reachable productions: indices beyond 255 take part in the item sets of a u16 and a u32 build
+        let alts: Vec<String> = (0..300).map(|i| format!("'t{}'", i)).collect();
+        format!("%start S\n%%\nS: {};\n", alts.join(" | "))
     } else {
         grammar::general_contexts(&mut rng)
     };
@@ -183,6 +191,9 @@ fn gen_contexts(p: &[u64; 8]) -> Gen {
             w[l - 1] = inputs[j].last().unwrap().clone();
             inputs.push(w);
         }
+    }
+    if p[1] == 1 {
+        inputs = vec![vec!["a".to_string(), "c".to_string()], vec!["a".to_string()], vec!["c".to_string()], vec!["a".to_string(), "p".to_string(), "c".to_string()]];
     }
     inputs.truncate(40);
     Gen { yk: YaccKind::Original(YaccOriginalActionKind::GenericParseTree), text, src, inputs, token_names: toks, parse_ok: true }
@@ -594,6 +605,7 @@ struct WRes {
     /// Ok(None) table built, Ok(Some(kind)) StateTableError, Err(panic message)
     t: Option<Result<Option<String>, String>>,
     d_table: u64,
+    d_numbering: u64,
     /// per input and recoverer: canonical parse outcome, or the panic message
     parses: Vec<String>,
     /// outcome of the lrlex pipeline on the first input
@@ -716,7 +728,7 @@ where
 
 /// Canonical (numbering-independent) digest of state graph + table: states are renumbered breadth
 /// first from the start state with edges taken in symbol order.
-fn table_digest<T>(grm: &YaccGrammar<T>, sg: &StateGraph<T>, st: &StateTable<T>) -> u64
+fn table_digest<T>(grm: &YaccGrammar<T>, sg: &StateGraph<T>, st: &StateTable<T>) -> (u64, u64)
 where
     T: 'static + PrimInt + Unsigned + Hash + Debug,
     usize: AsPrimitive<T>,
@@ -828,7 +840,12 @@ where
         }
         None => h.num(0),
     }
-    h.0
+    // the state numbering itself: the canonical number of every state, in the table's own order
+    let mut hn = Fnv::new();
+    for c in &canon {
+        hn.num(*c);
+    }
+    (h.0, hn.0)
 }
 
 type Lx<T> = DefaultLexerTypes<T>;
@@ -1042,7 +1059,10 @@ where
         return r;
     }
     match guarded(AssertUnwindSafe(|| table_digest(&grm, &sg, &st))) {
-        Ok(d) => r.d_table = d,
+        Ok(d) => {
+            r.d_table = d.0;
+            r.d_numbering = d.1;
+        }
         Err(msg) => r.late_panic = Some(format!("querying the table panicked: {}", msg)),
     }
     for inp in g.inputs.iter().filter(|_| g.parse_ok) {
@@ -1136,7 +1156,7 @@ fn run_grammar_case(out: &mut Out, d: &Desc, stages: usize) {
     let big = src.nrules.max(src.ntokens).max(src.nprods()).max(src.maxsyms()) > 2000;
     let with_lex = stages >= 3 && src.ntokens <= 600;
     // CPCT+ may use its whole 500 ms budget on an erroneous input: only a sample of the cases
-    let cpct = d.fam == FAM_RANDOM && d.p[1] % 8 == 0;
+    let cpct = (d.fam == FAM_RANDOM && d.p[1] % 8 == 0) || (d.fam == FAM_CONTEXTS && d.p[1] % 4 == 1);
     // Eco grammars with >= 2 implicit tokens: the production order of the implicit rule follows a
     // HashMap's iteration order (C15's concern), so the three widths must share one AST.
     let shared_ast = if src.has_impl && src.k >= 2 { Some(ASTWithValidityInfo::new(g.yk, &g.text)) } else { None };
@@ -1286,6 +1306,9 @@ fn run_grammar_case(out: &mut Out, d: &Desc, stages: usize) {
                         fails.push(format!("u{} table (canonically renumbered actions/gotos/items) differs from u32's", w));
                     }
                 } else {
+                    if r.d_numbering != r32.d_numbering {
+                        fails.push(format!("u{} numbers the states of the (otherwise equal) table differently from u32", w));
+                    }
                     // a recovery that may have hit CPCT+'s wall-clock budget is inconclusive
                     let differs = |a: &String, b: &String| a != b && a != "slow-recovery" && b != "slow-recovery";
                     if r.parses.len() != r32.parses.len() || r.parses.iter().zip(&r32.parses).any(|(a, b)| differs(a, b)) {
